@@ -890,6 +890,7 @@ def adapt_typehints(
         elif not isinstance(val, list):
             raise_unexpected_value(f"Expected a {typehint_origin}", val)
         if subtypehints is not None:
+            val = list(val)  # do not modify the given list
             for n, v in enumerate(val):
                 if isinstance(prev_val, list) and len(prev_val) == len(val):
                     adapt_kwargs_n = {**deepcopy(adapt_kwargs), "prev_val": prev_val[n]}
@@ -909,6 +910,8 @@ def adapt_typehints(
             val = dict(val)
         elif not isinstance(val, dict):
             raise_unexpected_value(f"Expected a {typehint_origin}", val)
+        else:
+            val = val.copy()  # do not modify the given dict
         if subtypehints is not None:
             if subtypehints[0] == int:
                 cast = str if serialize else int
